@@ -913,6 +913,34 @@ func genFormat(s *sink, quick bool) {
 		}
 		emit(t)
 	}
+	// Numeric field names at the edges of Go's int: 2^63 - 1, 2^63, 2^63 + 1, 2^64 - 1, 2^64, 2^64 + 1,
+	// 10^19, 20 nines, 10 * 2^64, and small numbers written with 19 and more digits.  A field number is a
+	// decimal number of any size: too large is an index out of range -- never a wrapped-around small
+	// index, never a keyword (the argument sets include these digit strings as keyword names).  Every
+	// case of this class is evaluated in Coq as well.
+	s.coqEvery["format:bignum"], s.pyEvery["format:bignum"] = 1, 1
+	bigNames := []string{"9223372036854775806", "9223372036854775807", "9223372036854775808", "9223372036854775809",
+		"18446744073709551615", "18446744073709551616", "18446744073709551617", "18446744073709551618",
+		"10000000000000000000", "99999999999999999999", "184467440737095516160", "184467440737095516161",
+		"36893488147419103232", "36893488147419103233", "340282366920938463463374607431768211456", "340282366920938463463374607431768211457",
+		"0000000000000000000", "0000000000000000001", "00000000000000000001", "000000000000000000000000000002", "999999999", "2147483648", "4294967296", "4294967297"}
+	bigSets := []argset{
+		{nil, nil},
+		{strV("A"), nil},
+		{strV("A", "B"), nil},
+		{strV("A", "B", "C"), []V{vStr("9223372036854775808"), vStr("K"), vStr("18446744073709551616"), vStr("L"), vStr("a"), vStr("M")}},
+		{nil, []V{vStr("9223372036854775809"), vStr("K"), vStr("99999999999999999999"), vStr("L"), vStr("0000000000000000001"), vStr("N")}},
+	}
+	for _, name := range bigNames {
+		for _, tpl := range []string{"{" + name + "}", "{" + name + "!r}", "{0}{" + name + "}", "{" + name + "}{1}", "{}{" + name + "}", "{" + name + "}{}",
+			"{a}{" + name + "}x", "{" + name + ":}", "{" + name + "!x}", "}}{" + name + "}{{", "{" + name + ".}", "{-" + name + "}", "{" + name + " }"} {
+			recv := vStr(tpl)
+			for _, a := range bigSets {
+				x := recv
+				s.do(Case{Op: "call", Kind: "string", X: &x, Name: "format", Args: append([]V{}, a.pos...), Kw: append([]V{}, a.kw...), Class: "format:bignum"})
+			}
+		}
+	}
 	// % interpolation
 	convs := []string{"%s", "%r", "%d", "%x", "%X", "%o", "%i", "%c", "%%", "%(a)s", "%(b)r", "%(a)d", "%(c)s", "%", "%z", "x", "%(a", "%e"}
 	d1 := vDict(vStr("a"), vStr("A"), vStr("b"), vInt(2))
